@@ -1121,7 +1121,7 @@ class Evaluator:
         return Unknown(f'expression kind {type(n).__name__}')
 
     def comprehension(self, n, env, fr):
-        if isinstance(n, ast.DictComp) and len(n.generators) == 1 and not n.generators[0].ifs:
+        if isinstance(n, ast.DictComp) and len(n.generators) == 1:
             g = n.generators[0]
             it = self.expr(g.iter, env, fr)
             items = None
@@ -1136,6 +1136,14 @@ class Evaluator:
                 for item in items:
                     e2 = dict(env)
                     self.assign(g.target, item, e2, fr)
+                    keep = True
+                    for cnd in g.ifs:
+                        c = truthy(self.expr(cnd, e2, fr))
+                        if not isinstance(c, Const):
+                            return Unknown('dict comprehension with a symbolic condition')
+                        keep = keep and bool(c.v)
+                    if not keep:
+                        continue
                     k = self.expr(n.key, e2, fr)
                     if not isinstance(k, Const):
                         return Unknown('dict comprehension with symbolic key')
@@ -1200,6 +1208,16 @@ class Evaluator:
             return BoolT('and' if isand else 'or', tuple(out))
 
     def compare(self, op, a, b):
+        if isinstance(op, (ast.Eq, ast.NotEq, ast.In, ast.NotIn)) and (isinstance(a, Tup) or isinstance(b, Tup)):
+            # constant folding on Python constants (lists/tuples of strings and numbers)
+            pa, pb = _py_const(a), _py_const(b)
+            if pa is not _NOCONST and pb is not _NOCONST:
+                try:
+                    r = {ast.Eq: lambda: pa == pb, ast.NotEq: lambda: pa != pb, ast.In: lambda: pa in pb,
+                         ast.NotIn: lambda: pa not in pb}[type(op)]()
+                    return Const(bool(r))
+                except TypeError:
+                    pass
         if isinstance(a, Ite) and (isinstance(b, Const) or (
                 isinstance(a.a, Const) and isinstance(a.b, (Const, Ite)))):
             return mk_ite(a.cond, self.compare(op, a.a, b), self.compare(op, a.b, b))
@@ -1450,6 +1468,10 @@ class Evaluator:
                     return Const(None)
                 env[n.func.value.id] = Unknown('list extended by symbolic iterable')
                 return Const(None)
+            if isinstance(base, Tup) and base.kind == 'set' and n.func.attr == 'pop' and not args \
+                    and len(base.items) == 1 and isinstance(n.func.value, ast.Name):
+                env[n.func.value.id] = Tup((), 'set')
+                return base.items[0]
             if isinstance(base, Tup) and base.kind == 'list' and isinstance(n.func.value, ast.Subscript) \
                     and n.func.attr in ('append', 'extend') and len(args) == 1:
                 # d[k].append(x) on a keyed dict value: rebind the entry
@@ -1714,6 +1736,8 @@ class Evaluator:
         if short in ('deepcopy',) or name in ('copy.copy', 'numpy.copy'):
             if isinstance(a[0], Obj) and a[0].cls in ('RegionMeta', 'RegionVisual') and a[0].path:
                 return App('copy', (a[0],))
+            if isinstance(a[0], DictV):
+                return a[0].copy()        # a dict value is mutable: the copy must not alias it
             return a[0]
         if name == 'isinstance' and len(a) == 2:
             r = _fold_isinstance(self.m, a[0], a[1])
@@ -1759,6 +1783,25 @@ class Evaluator:
             if items is not None:
                 return Tup(tuple(self.apply(a[0], [it], {}, fr) for it in items), 'list')
             return App('map', tuple(a))
+        if name in ('all', 'any') and len(a) == 1:
+            items = _iter_items(a[0])
+            if items is not None:
+                ts = [truthy(i) for i in items]
+                if all(isinstance(t, Const) for t in ts):
+                    vals = [bool(t.v) for t in ts]
+                    return Const(all(vals) if name == 'all' else any(vals))
+                ts = [t for t in ts if not isinstance(t, Const) or bool(t.v) != (name == 'all')]
+                if any(isinstance(t, Const) for t in ts):
+                    return Const(name != 'all')
+                return BoolT('and' if name == 'all' else 'or', tuple(ts)) if len(ts) > 1 else (ts[0] if ts else Const(name == 'all'))
+        if name == 'set' and len(a) == 1:
+            items = _iter_items(a[0])
+            if items is not None and all(isinstance(i, Const) for i in items):
+                uniq = []
+                for i in items:
+                    if not any(u_.v == i.v for u_ in uniq):
+                        uniq.append(i)
+                return Tup(tuple(uniq), 'set')
         if name == 'enumerate' and len(a) == 1:
             items = _iter_items(a[0])
             if items is not None:
